@@ -13,6 +13,18 @@ CHECKS = {
         "note": "Trusted: Coq kernel+VM, the hand-written model of encrypt/decrypt (checked against the code by the correspondence on every run), the harness and hooks. No axioms.",
         "technique": "Coq proof (induction over the stream) + model/implementation correspondence via vm_compute",
     },
+    "C04": {
+        "text": "Theorems (Coq, all 2^256 keys): check_public_key key = Ok <-> key mod N <> 0; the only two refused 32-byte values are zero and N (uses 2N > 2^256 and injectivity of the little-endian encoding); error kinds; accepted keys are handed back unchanged; the same rule for try_from_bigint (server's own key) and client_try_from_bigint under any announced modulus; the pinned 0.7.0 shortcut is refuted (183, 0x9b00). Tied to the code by the correspondence on boundary values, the 2^32 'zero or N-byte' class and random keys, plus a 10^6-key implementation oracle.",
+        "design_ref": "DESIGN.md §3 C04, §4 F1",
+        "note": "Decided on the repaired function (fix: a367a59). Trusted: Coq kernel+VM, the model of key.rs/bigint.rs, the harness. No axioms.",
+        "technique": "Coq proof (arithmetic on the little-endian encoding) + model/implementation correspondence via vm_compute",
+    },
+    "C13": {
+        "text": "Theorems (Coq, every list of Unicode scalar values): accepted iff 1..16 chars all in 0x20..0x7E; stored text = map upper; error precedence (byte-length gate first, then first offending scalar); no panic (chars <= bytes <= 16); idempotent; case-insensitive incl. error payload; constructors agree; derived Eq/Ord on (array,length) = lexicographic order of the texts (padding lemma); text -> struct injective (covers Hash); Display. Tied to the code by the correspondence (every ASCII byte at every position, multi-byte mixes around 16 bytes, all constructors, comparisons) and an oracle over every scalar value.",
+        "design_ref": "DESIGN.md §3 C13",
+        "note": "Trusted: Coq kernel+VM, the model of normalized_string.rs (str/char API rendered on scalar lists), the harness. No axioms.",
+        "technique": "Coq proof (induction over the scalar list) + model/implementation correspondence via vm_compute",
+    },
 }
 
 DONE = set(CHECKS)
